@@ -854,6 +854,48 @@ func vC09Scenario(name string, seed uint64) string {
 			return fmt.Sprintf("invoke-after-close/%v/%v", err, time.Since(t0))
 		}
 		return ""
+	case "call-after-dial-context-ended-and-connection-lost":
+		// C02: the context given to DialWithContext has ended (the documented `defer cancel()`), the connection is lost, and then
+		// a call is made with a deadline: it returns by its deadline whatever the connection is doing, and so do the
+		// calls which report the state
+		skey, ckey := vGenKey(r), vGenKey(r)
+		w := &vC09{r: r, ckey: ckey, impl: &vImpl{}}
+		w.ls = vStartLibServer(skey, []ed25519.PublicKey{ckey.Pub}, true)
+		w.px = vStartProxy(w.ls.Addr)
+		dctx, dcancel := context.WithCancel(context.Background())
+		cc, err := vDialLib(dctx, w.px.Addr, ckey, skey.Pub, WithBlock())
+		if err != nil {
+			dcancel()
+			return "setup"
+		}
+		w.cc = cc
+		dcancel()
+		time.Sleep(30 * time.Millisecond)
+		w.px.CutAll()
+		time.Sleep(time.Duration(20+r.Intn(120)) * time.Millisecond)
+		for i := 0; i < 3; i++ {
+			done := make(chan time.Duration, 1)
+			go func() {
+				t0 := time.Now()
+				ctx, c := context.WithTimeout(context.Background(), 300*time.Millisecond)
+				defer c()
+				_ = cc.Invoke(ctx, "Echo", vAppMsg("after", nil, ""), &message.Response{})
+				_ = cc.GetState()
+				done <- time.Since(t0)
+			}()
+			select {
+			case d := <-done:
+				if d > 1500*time.Millisecond {
+					return fmt.Sprintf("call-outlives-its-deadline/%v", d)
+				}
+			case <-time.After(4 * time.Second):
+				return "call-outlives-its-deadline/" + strings.Join(vParked(), ",")
+			}
+		}
+		if !vClose(cc, 6*time.Second) {
+			return "close-hangs/" + strings.Join(vParked(), ",")
+		}
+		return ""
 	case "state-while-close-waits-for-a-handler":
 		// C08: Close is waiting for a handler which is still serving a peer request: the connection refuses calls already,
 		// so it must not report READY any more, and those who wait for a state change must have been woken
@@ -1025,9 +1067,9 @@ func TestVerifC09(t *testing.T) {
 	vC09Run(t, vC09Names, "close/", 9)
 }
 
-// C02 / C14: the session is lost while a call is being prepared
+// C02 / C14: the session is lost while a call is being prepared; a call after the dial context ended and the session was lost
 func TestVerifLostWhilePreparing(t *testing.T) {
-	vC09Run(t, []string{"session-lost-while-call-is-being-prepared"}, "lost/", 21)
+	vC09Run(t, []string{"session-lost-while-call-is-being-prepared", "call-after-dial-context-ended-and-connection-lost"}, "lost/", 21)
 }
 
 func vC09Run(t *testing.T, names []string, class string, salt uint64) {
